@@ -25,6 +25,8 @@ def H(name, file, props, tier, fs="fs_core", **kw):
     mod = file[:-3].replace("/", "::")
     e = dict(name=name, id=name + "@" + fs, file=file, path=mod + "::" + name, props=list(props), tier=tier, fs=fs)
     e.update(kw)
+    if any(h["id"] == e["id"] for h in HARNESSES):
+        raise ValueError("harness registered twice: " + e["id"])
     HARNESSES.append(e)
 
 
@@ -481,21 +483,7 @@ for g in [0, 7]:
       what="window edge, concrete generations: a request exactly 1025 generations ahead is refused (InvalidFutureGeneration) and leaves the "
            "ratchet unchanged", symbolic="ratchet secret bytes", bounds="generation %d, requested %d" % (g, g + 1025))
 
-for g in [0, 7]:
-    H("c05_window_edge_refused_g%d" % g, "c05_ratchet_request.rs", ["C05", "C04"], "quick", fs="fs_noooo", unwind=1030,
-      stubs=ZSTUBS + _CUT, timeout_s=1800,
-      what="window edge, concrete generations: a request exactly 1025 generations ahead is refused (InvalidFutureGeneration) and leaves the "
-           "ratchet unchanged", symbolic="ratchet secret bytes", bounds="generation %d, requested %d" % (g, g + 1025))
-
 _STC = ["stub: mls_rs::group::secret_tree::SecretTree::new -> empty-map stand-in that parks the encryption secret (no BTreeMap insertion)"]
-H("c13_epoch_from_key_schedule", "c13_derive.rs", ["C13"], "thorough", unwind=64, mem="XX", timeout_s=3600, stubs=ZSTUBS + _UF + _STC,
-  what="full epoch derivation (RFC 9420 Figure 22), real KDFLabel encoding: joiner = ExpandWithLabel(Extract(init[n-1], commit_secret), 'joiner', "
-       "GroupContext); epoch_secret = ExpandWithLabel(Extract(joiner, psk_secret), 'epoch', GroupContext); the nine DeriveSecret outputs "
-       "(sender data, encryption, exporter, external, confirm, membership, resumption, authentication, init) land in the right fields; the "
-       "secret tree is sized for the group", symbolic="init, commit and psk secrets, all group-context fields", bounds="Nh = 2, 2-byte context fields, tree size 4")
-H("c13_epoch_from_joiner", "c13_derive.rs", ["C13"], "thorough", unwind=64, mem="XX", timeout_s=3600, stubs=ZSTUBS + _UF + _STC,
-  what="joiner-side epoch derivation (Welcome): epoch_secret = ExpandWithLabel(Extract(joiner, psk_secret), 'epoch', GroupContext) and the same nine "
-       "DeriveSecret outputs", symbolic="joiner and psk secrets, group-context fields", bounds="Nh = 2, tree size 4")
 
 
 _EP = ("epoch derivation (RFC 9420 Figure 22) with the real KDFLabel encoding; SecretTree::new cut away. One obligation group per harness "
